@@ -960,3 +960,132 @@ _run_c02_20 = run
 def run(res, facts, tier):
     _run_c02_20(res, facts, tier)
     r10_arity(res, facts)
+
+
+# ----------------------------------------------------------------------------------------------- R11: substring()
+def r11_substring(res, facts):
+    """XPath 1.0 §4.2: the characters whose position p satisfies p >= round(a) and, with a third argument, p < round(a) + round(b), by IEEE rules."""
+    import math, itertools
+    from ..mast import Machine, Unsupported as _U
+    r = res.rule('C02-R11', "substring(): FunctionSubstring::execute with getStartIndex / getSubstringLength interpreted on '12345' for start and length over "
+                 '{NaN, ±inf, negative, 0, fractions, in range, beyond the end} (length also absent); the result is the set of positions XPath 1.0 §4.2 defines '
+                 '(round() taken as floor(x + 0.5), which is what DoubleSupport::round is for; IEEE comparisons)', floor=150)
+    cands = [a for a in facts.asts('FunctionSubstring::execute') if len(a['params']) == 6]
+    if len(cands) != 1:
+        raise AnalysisBroken('FunctionSubstring::execute(6 parameters): %d bodies' % len(cands))
+    a = cands[0]
+    helpers = {n: facts.asts(n, must=False) for n in ('getStartIndex', 'getSubstringLength')}
+    if not all(helpers.values()):
+        raise AnalysisBroken('FunctionSubstring helpers getStartIndex / getSubstringLength not found')
+    S = '12345'
+    nan, inf = float('nan'), float('inf')
+    A = [nan, -inf, -42.0, -0.5, 0.0, 0.4, 0.5, 1.0, 1.5, 2.5, 3.0, 5.0, 5.5, 6.0, inf]
+    B = [None, nan, -inf, -1.0, 0.0, 0.5, 1.0, 1.5, 2.6, 3.0, 44.0, inf]
+
+    def rnd(x):
+        if x != x or x in (inf, -inf):
+            return x
+        return float(math.floor(x + 0.5))
+
+    def spec(av, bv):
+        ra = rnd(av)
+        out = ''
+        for p in range(1, len(S) + 1):
+            ok = p >= ra
+            if bv is not None:
+                ok = ok and (p < ra + rnd(bv))
+            if ok:
+                out += S[p - 1]
+        return out
+    pid = [p['id'] for p in a['params']]
+    reported = 0
+    for av, bv in itertools.product(A, B):
+        result = []
+
+        def hook(m, c, av=av, bv=bv):
+            n = c.get('n') or callee(c).split('::')[-1]
+            k = c['k']
+            if n == 'str':
+                return S
+            if n == 'length':
+                return len(m.ev(c['obj']))
+            if n == 'num':
+                o = strip_casts(c.get('obj'))
+                which = pp(o)
+                return av if 'arg2' in which else bv
+            if n == 'null':
+                which = pp(strip_casts(c.get('obj')))
+                return int(bv is None) if 'arg3' in which else 0
+            if n == 'round':
+                return rnd(m.ev(c['args'][0]))
+            if n == 'isNaN':
+                x = m.ev(c['args'][0]); return int(x != x)
+            if n == 'isPositiveInfinity':
+                return int(m.ev(c['args'][0]) == inf)
+            if n == 'isNegativeInfinity':
+                return int(m.ev(c['args'][0]) == -inf)
+            if n in ('lessThanOrEqual', 'lessThan', 'greaterThan', 'greaterThanOrEqual', 'equal'):
+                x, y = m.ev(c['args'][0]), m.ev(c['args'][1])
+                return int({'lessThanOrEqual': x <= y, 'lessThan': x < y, 'greaterThan': x > y, 'greaterThanOrEqual': x >= y, 'equal': x == y}[n])
+            if n == 'createEmptyString':
+                result.append('')
+                return 'RESULT'
+            if n in helpers:
+                b = helpers[n][0]
+                sub = type(m)({p['id']: m.ev(x) if not (isinstance(strip_casts(x), dict) and 'arg3' == pp(strip_casts(x))) else 'ARG3' for p, x in zip(b['params'], c['args'])}, call_hook=hook)
+                return sub.call(b['body'])
+            if n == 'c_str':
+                return ('ptr', m.ev(c['obj']), 0)
+            if n == 'assign' and len(c['args']) == 2:
+                base = m.ev(c['args'][0]); ln = m.ev(c['args'][1])
+                s0, off = (base[1], base[2]) if isinstance(base, tuple) else (base, 0)
+                result.append(s0[int(off):int(off) + int(ln)])
+                return 0
+            if n in ('get', 'getXObjectFactory'):
+                return 'OBJ'
+            if n == 'createString':
+                return 'RESULT'
+            if k == 'Ctor':
+                return m.ev(c['args'][0]) if len(c.get('args', [])) == 1 else 'GUARD'
+            if k == 'OpCall' and c['op'] in ('->', '*') and len(c['args']) == 1:
+                return m.ev(c['args'][0])
+            return NotImplemented
+
+        class SM(Machine):
+            def ev(self, e):
+                if e.get('k') == 'Bin' and e['op'] == '+':
+                    l = self.ev(e['lhs'])
+                    if isinstance(l, tuple) and l[0] == 'ptr':
+                        return ('ptr', l[1], l[2] + int(self.ev(e['rhs'])))
+                if e.get('k') == 'Cast' and e.get('ck') == 'FloatingToIntegral':
+                    v = self.ev(e['e'])
+                    if v != v or v in (inf, -inf) or v < 0 or v >= 2 ** 64:
+                        raise _U('conversion of %r to an unsigned integer (undefined behaviour)' % v)
+                    return int(v)
+                return super().ev(e)
+        env = {pid[0]: 'CTX', pid[1]: 0, pid[2]: 'ARG1', pid[3]: 'ARG2', pid[4]: 'ARG3', pid[5]: 0}
+        m = SM(env, call_hook=hook)
+        site = "substring('12345', %s%s)" % (av, '' if bv is None else ', %s' % bv)
+        try:
+            m.call(a['body'])
+            got = result[-1] if result else None
+        except _U as u:
+            got = 'UNDEFINED: %s' % u
+        want = spec(av, bv)
+        if got == want:
+            r.ok(site, repr(got))
+        else:
+            reported += 1
+            if reported <= 3:
+                r.violation(site, 'the code yields %r, XPath 1.0 §4.2 requires %r' % (got, want), common.file_line(a))
+            else:
+                r.instances += 1
+    return r
+
+
+_run_c02_21 = run
+
+
+def run(res, facts, tier):
+    _run_c02_21(res, facts, tier)
+    r11_substring(res, facts)
